@@ -1048,3 +1048,68 @@ def _split_args(s):
     if cur.strip():
         out.append(cur)
     return out
+
+
+def split_conditionals(key, depth=4):
+    """an emission with a conditional expression among its arguments (`add_clause([a if c else b, ..])`, c over emission-level names)
+    is the pair of emissions guarded by c and by not c: both spellings get the same set of keys"""
+    quants, guards, builder, args = key
+    if depth <= 0:
+        return {key}
+    for i, a in enumerate(args):
+        if " if " not in a:
+            continue
+        try:
+            tree = ast.parse(a, mode="eval")
+        except SyntaxError:
+            continue
+        inner = set()
+        for n in ast.walk(tree):
+            if isinstance(n, ast.comprehension):
+                inner |= {x.id for x in ast.walk(n.target) if isinstance(x, ast.Name)}
+            if isinstance(n, ast.Lambda):
+                inner |= {x.arg for x in n.args.args}
+        hit = None
+        for n in ast.walk(tree):
+            if isinstance(n, ast.IfExp) and not ({x.id for x in ast.walk(n.test) if isinstance(x, ast.Name)} & inner):
+                hit = n
+                break
+        if hit is None:
+            continue
+        out = set()
+        for branch, neg in ((hit.body, False), (hit.orelse, True)):
+            # replace by identity on the parsed tree (restored afterwards)
+            parent = None
+            for p_ in ast.walk(tree):
+                for f_, v in ast.iter_fields(p_):
+                    if v is hit:
+                        parent = (p_, f_, None)
+                    elif isinstance(v, list):
+                        for j, x in enumerate(v):
+                            if x is hit:
+                                parent = (p_, f_, j)
+            if parent is None:
+                return {key}
+            p_, f_, j = parent
+            if j is None:
+                setattr(p_, f_, branch)
+            else:
+                getattr(p_, f_)[j] = branch
+            text = src(tree.body)
+            if j is None:
+                setattr(p_, f_, hit)
+            else:
+                getattr(p_, f_)[j] = hit
+            g2 = list(guards) + canon_guard(hit.test, neg)
+            k2 = Emission([tuple(q) for q in quants], g2, builder, list(args[:i]) + [text] + list(args[i + 1:]), None).key()
+            out |= split_conditionals(k2, depth - 1)
+        return out
+    return {key}
+
+
+def split_keys(keys):
+    out = {}
+    for k in keys:
+        for k2 in split_conditionals(k):
+            out.setdefault(k2, k)
+    return out
